@@ -28,6 +28,10 @@ type c03Case struct {
 	Cached bool    `json:"cached"`
 	Spec   []int64 `json:"spec"` // float bits or ns
 	Ops    []c03Op `json:"ops"`
+	// Def: ScopeOptions.DefaultBuckets of the root (nil = not configured); what a nil specification means
+	Def    []int64 `json:"def,omitempty"`
+	DefDur bool    `json:"def_dur,omitempty"`
+	Sub    bool    `json:"sub,omitempty"` // the histogram is obtained from a sub-scope of the root
 }
 
 var finiteFloats = []float64{0, 1, -1, 2, 0.5, 1.5, 10, 100, -100, 1e-300, -1e-300, 1e300, -1e300,
@@ -56,6 +60,21 @@ func c03Gen(r *Rng, i int, thorough bool) c03Case {
 		c.Nil = true
 		c.Dur = false
 		n = 0
+		if r.Chance(65) {
+			// configured default buckets of either kind (strictly increasing, as a user would write them)
+			c.DefDur = r.Bool()
+			k := r.Range(1, 5)
+			base := int64(r.Intn(5))
+			for j := 0; j < k; j++ {
+				base += int64(r.Range(1, 50))
+				if c.DefDur {
+					c.Def = append(c.Def, base*int64(time.Millisecond))
+				} else {
+					c.Def = append(c.Def, fbits(float64(base)/4))
+				}
+			}
+			c.Sub = r.Bool()
+		}
 	}
 	negZero := r.Bool() // at most one sign of zero per specification (sort.Sort is not stable)
 	for j := 0; j < n; j++ {
@@ -84,23 +103,27 @@ func c03Gen(r *Rng, i int, thorough bool) c03Case {
 			c.Ops = append(c.Ops, c03Op{Op: "pass"})
 		case x < 26 && x >= 22: // a stopwatch (elapsed time from a scripted clock)
 			d := int64(r.Intn(2000)) - 5
-			if len(c.Spec) > 0 && (c.Dur || c.Nil) && r.Chance(50) {
+			if len(c.Spec) > 0 && c.Dur && r.Chance(50) {
 				if b := c.Spec[r.Intn(len(c.Spec))]; b > -(1<<40) && b < 1<<40 {
 					d = b + int64(r.Intn(3)) - 1
 				}
 			}
 			c.Ops = append(c.Ops, c03Op{Op: "sw", V: d})
 		case x < 22: // the other kind: must be ignored
-			if c.Dur || c.Nil {
+			if c.Dur || (c.Nil && (len(c.Def) == 0 || c.DefDur)) {
 				c.Ops = append(c.Ops, c03Op{Op: "v", V: fbits(r.F64())})
 			} else {
 				c.Ops = append(c.Ops, c03Op{Op: "d", V: r.I64()})
 			}
 		default:
-			dur := c.Dur || c.Nil
+			dur := c.Dur || (c.Nil && (len(c.Def) == 0 || c.DefDur))
 			var v int64
-			if len(c.Spec) > 0 && r.Chance(60) {
-				b := c.Spec[r.Intn(len(c.Spec))]
+			spec := c.Spec
+			if c.Nil {
+				spec = c.Def
+			}
+			if len(spec) > 0 && r.Chance(60) {
+				b := spec[r.Intn(len(spec))]
 				switch r.Intn(3) {
 				case 0:
 					v = b
@@ -193,9 +216,26 @@ func c03Run(c *c03Case) (in []Ev, obs []Ev, fail string) {
 		return
 	}
 
-	hdur := dur || c.Nil
+	hdur := dur || (c.Nil && (len(c.Def) == 0 || c.DefDur))
 	log := &Log{}
 	opts := tally.ScopeOptions{OmitCardinalityMetrics: true}
+	if c.Nil && len(c.Def) > 0 {
+		if c.DefDur {
+			d := make(tally.DurationBuckets, len(c.Def))
+			for i, v := range c.Def {
+				d[i] = time.Duration(v)
+			}
+			opts.DefaultBuckets = d
+			in = append(in, Ev{K: 39, I: append([]int64(nil), c.Def...)})
+		} else {
+			v := make(tally.ValueBuckets, len(c.Def))
+			for i, b := range c.Def {
+				v[i] = math.Float64frombits(uint64(b))
+			}
+			opts.DefaultBuckets = v
+			in = append(in, Ev{K: 39, I: append([]int64(nil), c.Def...), F: 0xffffffff})
+		}
+	}
 	if c.Cached {
 		opts.CachedReporter = &RecCached{L: log, Caps: caps{true, true}}
 	} else {
@@ -211,7 +251,11 @@ func c03Run(c *c03Case) (in []Ev, obs []Ev, fail string) {
 				obs = append(obs, Ev{K: 98})
 			}
 		}()
-		h = scope.Histogram("h", b)
+		if c.Sub {
+			h = scope.SubScope("s").Histogram("h", b)
+		} else {
+			h = scope.Histogram("h", b)
+		}
 	}()
 	if fail != "" {
 		return
@@ -237,8 +281,12 @@ func c03Run(c *c03Case) (in []Ev, obs []Ev, fail string) {
 		spec := c.Spec
 		if c.Nil {
 			spec = nil
-			for _, d := range defaultScopeBucketsNs {
-				spec = append(spec, d)
+			if len(c.Def) > 0 {
+				spec = append(spec, c.Def...)
+			} else {
+				for _, d := range defaultScopeBucketsNs {
+					spec = append(spec, d)
+				}
 			}
 		}
 		var us []int64
@@ -449,7 +497,10 @@ func init() {
 				key = hashOf(c)
 			}
 			idx := ctx.Res.Evaluations
-			par := []int64{b2i(c.Dur), b2i(c.Nil)}
+			par := []int64{b2i(c.Dur), b2i(c.Nil), 0}
+			if c.Nil && len(c.Def) > 0 {
+				par[2] = 1 + b2i(c.DefDur)
+			}
 			ctx.Case(c, gcase(idx, par, in, obs), c03Class(c), key)
 			for _, o := range c.Ops {
 				if o.Op == "v" && !c.Dur && !c.Nil {
